@@ -11,7 +11,8 @@ LEVEL = 'exploration'
 DESIGN_REF = 'DESIGN.md 4/C04'
 RULE = ('Hypothesis draws (T, v) and two construction histories h1, h2 of v, each a program over the public API: components '
         'assigned in any order by name / position / item assignment / setComponents, SET OF members added in any order with '
-        'append / extend / positional assignment, DEFAULT components equal to their default assigned or left out, sub-values '
+        'append / extend / positional assignment (positions in any order), CHOICE alternatives selected directly or - after the '
+        'finished value was encoded and printed once - re-selected in place from another alternative, DEFAULT components equal to their default assigned or left out, sub-values '
         'obtained by decoding a drawn BER variant, clone(cloneValueFlag=True) of intermediate objects, and read-only uses '
         '(BER/CER/DER/native encoding, str, prettyPrint, repr, iteration, keys/values/items, == and != against equal and '
         'different objects) interleaved anywhere. Oracle: der(h1) == der(h2) and cer(h1) == cer(h2) byte for byte; '
@@ -37,6 +38,19 @@ class Tape(object):
         self.tape = [] if tape is None else list(tape)
         self.i = 0
         self.log = []
+        self.fixups = []        # assignments that turn a detour (another CHOICE alternative) into the intended value, run last
+
+    def value(self, T):
+        """Some value of T (drawn while generating, read back from the tape on replay)."""
+        if self.draw is not None:
+            v = gen.draw_value(gen.D(self.draw, dict(gen.DEFAULT_CFG, **CFG)), T)
+            self.tape.append(['val', ir.to_jsonable(v)])
+            return v
+        item = self.tape[self.i] if self.i < len(self.tape) else None
+        self.i += 1
+        if isinstance(item, list) and item and item[0] == 'val':
+            return ir.from_jsonable(item[1])
+        return None
 
     def int(self, a, b):
         if self.draw is not None:
@@ -163,8 +177,13 @@ def construct(t, sch, T, v, depth=0):
         if order != sorted(order):
             t.log.append('permuted')
         subs = [construct(t, o.componentType, T['of'], v[j], depth + 1) for j in order]
-        how = t.int(0, 3)
-        if how == 0:
+        how = t.int(0, 4)
+        if how == 4 and len(subs) >= 2:
+            # positions filled in any order (a position beyond the current length is accepted)
+            for i in t.perm(len(subs)):
+                o.setComponentByPosition(i, subs[i])
+            t.log.append('positions-permuted')
+        elif how == 4 or how == 0:
             for s_ in subs:
                 o.append(s_)
         elif how == 1:
@@ -183,7 +202,21 @@ def construct(t, sch, T, v, depth=0):
         idx = [a['name'] for a in T['alts']].index(name)
         sub = construct(t, o.componentType[idx].asn1Object, T['alts'][idx]['t'], inner, depth + 1)
         how = t.int(0, 2)
-        if how == 0:
+        detour = None
+        if len(T['alts']) >= 2 and t.pct(20):
+            # a detour: another alternative is selected first; the intended one is selected in place at the very end, after
+            # the whole value has been put together and used (encoded, printed) once
+            j = (idx + 1 + t.int(0, len(T['alts']) - 2)) % len(T['alts'])
+            other = t.value(T['alts'][j]['t'])
+            if other is not None:
+                detour = construct(t, o.componentType[j].asn1Object, T['alts'][j]['t'], other, depth + 1)
+                o.setComponentByPosition(j, detour)
+                t.log.append('detour')
+                t.fixups.append(lambda o=o, name=name, idx=idx, sub=sub, how=how: (
+                    o.setComponentByName(name, sub) if how == 0 else o.setComponentByPosition(idx, sub) if how == 1 else o.__setitem__(name, sub)))
+        if detour is not None:
+            pass
+        elif how == 0:
             o.setComponentByName(name, sub)
         elif how == 1:
             o.setComponentByPosition(idx, sub)
@@ -195,7 +228,8 @@ def construct(t, sch, T, v, depth=0):
             # the documented per-object BER encoding preference of Real; the canonical codecs have no such freedom
             o.binEncBase = (2, 8, 16)[t.int(0, 2)]
             t.log.append('binEncBase')
-    if t.pct(15):
+    if t.pct(15) and not t.fixups:
+        # (not while a detour is pending: its final assignment refers to the objects built so far)
         t.log.append('cloned')
         o = o.clone(cloneValueFlag=True) if k in ir.CONSTRUCTED_KINDS or k == 'CHOICE' else o.clone()
     if t.pct(20):
@@ -217,6 +251,22 @@ def run_case(case, col=None, tapes=None):
         case.setdefault('tapes', [[], []])[i] = t.tape
         try:
             o = construct(t, sch, T, v)
+            if t.fixups:
+                # the value with its detours is used once, then every detour is undone in place
+                for use in (lambda: lib.encode('DER', o), lambda: lib.encode('CER', o), lambda: o.prettyPrint()):
+                    try:
+                        use()
+                    except Exception:
+                        pass
+                for fix in t.fixups:
+                    fix()
+                t.log.append('reselected-in-place')
+                if not absval.equal(T, o, v, sch)[0]:
+                    # the library stored a copy of an intermediate object somewhere, so the in-place selection did not reach
+                    # it: this history does not build v at all (nothing to compare)
+                    if col is not None:
+                        col.exclude('detour history does not arrive at v')
+                    return fails
         except error.PyAsn1Error as e:
             F('construct', 'raises', 'history %d: a well-formed construction step raised %s: %s' % (i, harness.exc_sig(e), str(e)[:160]), harness.exc_sig(e))
             return fails
@@ -291,6 +341,18 @@ def run_shard(desc, seed, tier, col):
     @st.composite
     def cases(draw):
         T, v = draw(gen.type_and_value(CFG))
+        d = gen.D(draw, dict(gen.DEFAULT_CFG, **CFG))
+        if d.pct(10):
+            # a SET whose order depends on which alternative of a nested untagged CHOICE is selected: the alternatives p, q of
+            # the inner CHOICE lie on either side of the tag of member a
+            ks = sorted(d.draw(st.lists(st.sampled_from(['BOOLEAN', 'INTEGER', 'OCTETSTRING', 'NULL', 'OID', 'UTF8String', 'IA5String',
+                                                         'PrintableString', 'VisibleString', 'BMPString']), min_size=3, max_size=3, unique=True)),
+                        key=lambda k: ir.UNIVERSAL[k])
+            inner = ir.mk('CHOICE', alts=[{'name': 'p', 't': ir.mk(ks[0])}, {'name': 'q', 't': ir.mk(ks[2])}])
+            outer = ir.mk('CHOICE', alts=[{'name': 'x', 't': inner}, {'name': 'y', 't': ir.mk('INTEGER', tags=[['I', 'C', 7]])}])
+            T = ir.mk('SET', comps=[ir.comp('a', ir.mk(ks[1])), ir.comp('b', outer)])
+            sel = d.pick(['p', 'q'])
+            v = {'a': gen.draw_value(d, T['comps'][0]['t']), 'b': ('x', (sel, gen.draw_value(d, inner['alts'][0 if sel == 'p' else 1]['t'])))}
         return T, v, draw(st.data())
 
     def body(x):
